@@ -41,9 +41,10 @@ import (
 	"github.com/haqq-network/haqq/contracts"
 	haqqtypes "github.com/haqq-network/haqq/types"
 	coinomicstypes "github.com/haqq-network/haqq/x/coinomics/types"
+	epochstypes "github.com/haqq-network/haqq/x/epochs/types"
 	erc20types "github.com/haqq-network/haqq/x/erc20/types"
-	feemarkettypes "github.com/haqq-network/haqq/x/feemarket/types"
 	evmtypes "github.com/haqq-network/haqq/x/evm/types"
+	feemarkettypes "github.com/haqq-network/haqq/x/feemarket/types"
 	lvtypes "github.com/haqq-network/haqq/x/liquidvesting/types"
 	ucdaotypes "github.com/haqq-network/haqq/x/ucdao/types"
 	vestingtypes "github.com/haqq-network/haqq/x/vesting/types"
@@ -85,11 +86,13 @@ type BlockFeed struct {
 }
 
 type History struct {
-	NumVals   int      `json:"num_vals"`
-	Coinomics bool     `json:"coinomics"`
-	NoBaseFee bool     `json:"no_base_fee,omitempty"` // fee market without a base fee (a min gas price instead)
-	LateForks bool     `json:"late_forks,omitempty"`  // genesis leaves London and the later hard forks unscheduled (governance schedules them)
-	Blocks    []HBlock `json:"blocks"`
+	NumVals   int  `json:"num_vals"`
+	Coinomics bool `json:"coinomics"`
+	NoBaseFee bool `json:"no_base_fee,omitempty"` // fee market without a base fee (a min gas price instead)
+	LateForks bool `json:"late_forks,omitempty"`  // genesis leaves London and the later hard forks unscheduled (governance schedules them)
+	// FutureEpoch: genesis registers an additional epoch that starts a little after genesis and ticks every 40 s
+	FutureEpoch bool     `json:"future_epoch,omitempty"`
+	Blocks      []HBlock `json:"blocks"`
 }
 
 const hUsers = 5
@@ -98,7 +101,7 @@ var hKinds = []string{
 	"send", "send", "delegate", "delegate", "delegate", "undelegate", "undelegate", "redelegate", "withdraw", "setwithdraw",
 	"gov-submit", "gov-deposit", "gov-vote", "vest-create", "vest-create", "vest-clawback", "lv-liquidate", "lv-redeem",
 	"dao-fund", "dao-transfer", "eth-send", "eth-create", "eth-call", "eth-call", "eth-delegate", "eth-withdraw", "eth-prog",
-	"bad-nonce", "low-fee", "unjail", "send-module", "eth-fanout", "erc20-deploy", "erc20-mint", "erc20-transfer", "erc20-transfer", "erc20-convert",
+	"bad-nonce", "low-fee", "unjail", "send-module", "delegate-all", "eth-fanout", "erc20-deploy", "erc20-mint", "erc20-transfer", "erc20-transfer", "erc20-convert",
 }
 
 var hGovKinds = []string{"register-erc20", "register-erc20", "toggle-pair", "precompile-off", "precompile-swap", "erc20-switch", "register-coin", "upgrade-plan", "fork-schedule"}
@@ -120,7 +123,7 @@ func genHTx(t *rapid.T, kinds []string) HTx {
 
 func genHistory(t *rapid.T, minBlocks, maxBlocks int, kinds []string) History {
 	h := History{NumVals: rapid.IntRange(2, 4).Draw(t, "nvals"), Coinomics: rapid.Bool().Draw(t, "coinomics"), NoBaseFee: rapid.IntRange(0, 3).Draw(t, "nobasefee") == 0,
-		LateForks: rapid.IntRange(0, 5).Draw(t, "lateforks") == 0}
+		LateForks: rapid.IntRange(0, 5).Draw(t, "lateforks") == 0, FutureEpoch: rapid.IntRange(0, 2).Draw(t, "futureepoch") == 0}
 	nb := rapid.IntRange(minBlocks, maxBlocks).Draw(t, "nblocks")
 	for i := 0; i < nb; i++ {
 		b := HBlock{Dt: rapid.SampledFrom(hDts).Draw(t, "dt"), Proposer: rapid.IntRange(0, 3).Draw(t, "proposer")}
@@ -181,6 +184,17 @@ func genHistory(t *rapid.T, minBlocks, maxBlocks int, kinds []string) History {
 		h.Blocks[i+2].Gov = append(h.Blocks[i+2].Gov, HTx{K: "precompile-swap", N: rapid.IntRange(0, 4).Draw(t, "pc-swap")})
 		h.Blocks[i+3].Txs = append([]HTx{{K: "eth-delegate", A: a, V: 0, Amt: "1000", N: 1}, {K: "eth-withdraw", A: a, V: 0, N: 1}}, h.Blocks[i+3].Txs...)
 	}
+	if has("delegate-all") && nb >= 3 && rapid.IntRange(0, 3).Draw(t, "rewards-fee-scenario") == 0 {
+		// an account stakes all it has with several validators; others pay fees for a while; then its transactions can
+		// only pay their fee out of the staking rewards (the ante handler claims just enough of them)
+		i := rapid.IntRange(0, nb-3).Draw(t, "rf-at")
+		a := rapid.IntRange(0, hUsers-1).Draw(t, "rf-a")
+		h.Blocks[i].Txs = append([]HTx{{K: "delegate-all", A: a}}, h.Blocks[i].Txs...)
+		for k := 0; k < 3; k++ {
+			h.Blocks[i+1].Txs = append(h.Blocks[i+1].Txs, HTx{K: "send", A: (a + 1 + k%2) % hUsers, B: a, Amt: "1"})
+		}
+		h.Blocks[i+2].Txs = append([]HTx{{K: "send", A: a, B: (a + 1) % hUsers, Amt: "1"}, {K: "eth-send", A: a, B: (a + 2) % hUsers, Amt: "1", N: 1}}, h.Blocks[i+2].Txs...)
+	}
 	if has("send-module") && nb >= 2 && rapid.IntRange(0, 3).Draw(t, "switch-scenario") == 0 {
 		// a module-wide switch is turned off by governance, then users try paths that consult it
 		i := rapid.IntRange(0, nb-2).Draw(t, "switch-at")
@@ -208,6 +222,16 @@ func genHistory(t *rapid.T, minBlocks, maxBlocks int, kinds []string) History {
 				h.Blocks[i+3].Txs = append(h.Blocks[i+3].Txs, HTx{K: "eth-send", A: a, B: (a + 2) % hUsers, Amt: "1", N: 0})
 			}
 		}
+	}
+	if has("gov-vote") && nb >= 3 && rapid.IntRange(0, 2).Draw(t, "gov-exec-scenario") == 0 {
+		// a proposal with messages is submitted by a large delegator, voted through, and executed (or rolled back) when
+		// its voting period ends
+		i := rapid.IntRange(0, nb-3).Draw(t, "ge-at")
+		a := rapid.IntRange(0, hUsers-1).Draw(t, "ge-a")
+		h.Blocks[i].Txs = append([]HTx{{K: "delegate", A: a, V: 0, Amt: "50000000"}, {K: "gov-submit", A: a, Amt: "1000000", N: rapid.SampledFrom([]int{3, 4, 4}).Draw(t, "ge-kind"), V: rapid.IntRange(0, 3).Draw(t, "ge-v") * 2}}, h.Blocks[i].Txs...)
+		h.Blocks[i+1].Dt = 5
+		h.Blocks[i+1].Txs = append([]HTx{{K: "gov-vote", A: a, V: 0, N: 0}}, h.Blocks[i+1].Txs...)
+		h.Blocks[i+2].Dt = 61
 	}
 	if has("gov-vote") && nb >= 2 && rapid.IntRange(0, 1).Draw(t, "gov-scenario") == 0 {
 		i := rapid.IntRange(0, nb-2).Draw(t, "gov-at")
@@ -262,6 +286,12 @@ func hOpts(h History) chain.Opts {
 		dg.Params.CommunityTax = sdk.NewDecWithPrec(2, 2)
 		gs[distrtypes.ModuleName] = cdc.MustMarshalJSON(dg)
 
+		if h.FutureEpoch {
+			var pg epochstypes.GenesisState
+			cdc.MustUnmarshalJSON(gs[epochstypes.ModuleName], &pg)
+			pg.Epochs = append(pg.Epochs, epochstypes.EpochInfo{Identifier: "launch", StartTime: chain.GenesisTime.Add(12 * time.Second), Duration: 40 * time.Second})
+			gs[epochstypes.ModuleName] = cdc.MustMarshalJSON(&pg)
+		}
 		if h.LateForks {
 			var eg evmtypes.GenesisState
 			cdc.MustUnmarshalJSON(gs[evmtypes.ModuleName], &eg)
@@ -474,7 +504,20 @@ func (r *hRunner) buildTx(x HTx) []byte {
 		if x.V%2 == 1 {
 			dep = dep.Add(sdk.NewInt64Coin("uxmpl", int64(1000+x.N))) // gov accepts any denomination as a deposit
 		}
-		m, err := govv1.NewMsgSubmitProposal(nil, dep, A.Addr.String(), "meta", fmt.Sprintf("title %d", x.N), "summary")
+		var pmsgs []sdk.Msg
+		if x.N%5 >= 3 {
+			// a proposal that carries messages: a fee-market parameter change, and (N%5 == 4) behind it a message that
+			// cannot succeed, so that the whole execution is rolled back
+			fp := app.FeeMarketKeeper.GetParams(ctx)
+			fp.BaseFee = fp.BaseFee.AddRaw(int64(12345 + x.N))
+			fp.MinGasMultiplier = sdk.NewDecWithPrec(int64(40+x.V), 2)
+			gov := authtypes.NewModuleAddress(govtypes.ModuleName)
+			pmsgs = append(pmsgs, &feemarkettypes.MsgUpdateParams{Authority: gov.String(), Params: fp})
+			if x.N%5 == 4 {
+				pmsgs = append(pmsgs, banktypes.NewMsgSend(gov, A.Addr, sdk.NewCoins(sdk.NewCoin(chain.Denom, sdkmath.NewIntWithDecimal(1, 30)))))
+			}
+		}
+		m, err := govv1.NewMsgSubmitProposal(pmsgs, dep, A.Addr.String(), "meta", fmt.Sprintf("title %d", x.N), "summary")
 		must(err)
 		return cosmos(A, 500000, m)
 	case "gov-deposit", "gov-vote":
@@ -514,7 +557,37 @@ func (r *hRunner) buildTx(x HTx) []byte {
 		if x.N%2 == 0 {
 			vest = nil // vested immediately, only locked: can be liquidated
 		}
+		if x.B%3 == 2 {
+			// the grant's vested part is delegated by the message itself, to any validator (also a jailed / unbonding one)
+			all := app.StakingKeeper.GetAllValidators(ctx)
+			sort.Slice(all, func(i, j int) bool { return all[i].OperatorAddress < all[j].OperatorAddress })
+			stakeTo := all[x.V%len(all)].GetOperator()
+			if x.N%2 == 1 {
+				vest = sdkvesting.Periods{{Length: 1, Amount: half}, {Length: 3000, Amount: rest}} // half vests at once
+				if start.After(n.Header.Time.Add(-2 * time.Second)) {
+					start = n.Header.Time.Add(-2 * time.Second)
+				}
+			}
+			return cosmos(A, 1500000, vestingtypes.NewMsgConvertIntoVestingAccount(A.Addr, target.Addr, start, lock, vest, true, true, stakeTo))
+		}
 		return cosmos(A, 800000, vestingtypes.NewMsgConvertIntoVestingAccount(A.Addr, target.Addr, start, lock, vest, true, false, nil))
+	case "delegate-all":
+		// A stakes (nearly) everything it has, spread over the bonded validators, keeping less than one later fee:
+		// its next transactions can only pay their fee out of staking rewards
+		bal := app.BankKeeper.SpendableCoins(ctx, A.Addr).AmountOf(chain.Denom)
+		gas := uint64(300000 * len(vals))
+		fee := sdkmath.NewIntFromBigInt(new(big.Int).Mul(price, new(big.Int).SetUint64(gas)))
+		reserve := sdkmath.NewInt(3_000_000_000_000_000) // 0.003 ISLM: below the fee of an ordinary transaction
+		stake := bal.Sub(fee).Sub(reserve)
+		if !stake.IsPositive() {
+			return nil
+		}
+		var msgs []sdk.Msg
+		part := stake.QuoRaw(int64(len(vals)))
+		for _, v := range vals {
+			msgs = append(msgs, stakingtypes.NewMsgDelegate(A.Addr, v.GetOperator(), sdk.NewCoin(chain.Denom, part)))
+		}
+		return cosmos(A, gas, msgs...)
 	case "vest-clawback":
 		target := chain.Acct(fmt.Sprintf("hvest%d", x.N%3))
 		signer := A
@@ -928,7 +1001,12 @@ func (r *hRunner) RunBlock(b HBlock, feed *BlockFeed) (BlockTrace, BlockFeed) {
 		} else {
 			r.st.Fail[k]++
 			if os.Getenv("VERIF_DEBUG") != "" {
-				fmt.Printf("DEBUG height %d tx %s failed: code %d %s %s\n", n.Header.Height, k, res.Code, vmErr, func() string { if os.Getenv("VERIF_DEBUG") == "2" { return res.Log }; return trunc(res.Log) }())
+				fmt.Printf("DEBUG height %d tx %s failed: code %d %s %s\n", n.Header.Height, k, res.Code, vmErr, func() string {
+					if os.Getenv("VERIF_DEBUG") == "2" {
+						return res.Log
+					}
+					return trunc(res.Log)
+				}())
 			}
 		}
 	}
